@@ -19,7 +19,7 @@ def run(patch, prop, s, tier='quick'):
 RUN_TAG = os.environ.get('FINAL_EVAL_RUN', '')
 # checks whose subject overlaps a property's (tried right after the property's own quick tier)
 STATIC_HINTS = {'C01': ['C12', 'C11'], 'C02': ['C06', 'C04'], 'C04': ['C05', 'C17'], 'C05': ['C15', 'C04'], 'C08': ['C13'], 'C09': ['C17', 'C03'],
-                'C10': ['C14'], 'C11': ['C04'], 'C13': ['C08'], 'C15': ['C07', 'C05'], 'C19': ['C10', 'C08']}
+                'C10': ['C14'], 'C11': ['C04'], 'C13': ['C08', 'C19'], 'C15': ['C07', 'C05'], 'C19': ['C10', 'C08']}
 
 
 def one(d):
